@@ -60,6 +60,7 @@ func (c *timedLister) List(ctx context.Context, _ metav1.ListOptions) (runtime.O
 
 func runListerPoint(t *testing.T, tr *tracer, idx int, period, latency, delay time.Duration, stopFrac int, useCancel bool) {
 	synctest.Test(t, func(t *testing.T) {
+		reseed(*flagSeed, idx)
 		ctx, cancel := context.WithCancel(context.Background())
 		defer cancel()
 		stopch := make(chan struct{})
